@@ -7,6 +7,7 @@
 package c35
 
 import (
+	"bytes"
 	"os"
 	"strconv"
 	"strings"
@@ -51,7 +52,7 @@ var cfg = gobatch.Config{Name: "c35", Gen: Generate, OracleOf: oracleOf, Known: 
 func TestGenericVsSpecialised(t *testing.T) {
 	c := cfg
 	c.Rec = rec
-	c.N = rec.Scale(150, 1500)
+	c.N = rec.Scale(100, 1200)
 	if n, _ := strconv.Atoi(os.Getenv("C35_N")); n > 0 {
 		c.N = n // development only
 	}
@@ -59,5 +60,11 @@ func TestGenericVsSpecialised(t *testing.T) {
 }
 
 func TestReplays(t *testing.T) {
-	rec.RunReplays(t, gobatch.ReplayerWith(cfg))
+	diff := gobatch.ReplayerWith(cfg)
+	rec.RunReplays(t, func(content []byte) error {
+		if bytes.HasPrefix(content, []byte("//memo:")) {
+			return replayMemo(content)
+		}
+		return diff(content)
+	})
 }
